@@ -119,7 +119,18 @@ class C18(Prop):
             a = a_plain          # identical clause text in A and B (layout included)
         p2, c2 = gen.gen_program(src, CFG)
         c = gen.program_text(c2)
-        cmode = src.pick(['ok', 'ok', 'malformed', 'debug', 'too-large', 'internal-error', 'from-file'])
+        cmode = src.pick(['ok', 'ok', 'malformed', 'debug', 'too-large', 'internal-error', 'from-file', 'capital-heads'])
+        if cmode == 'capital-heads':
+            # predicates with capitalised quoted names: the generated functions are called like variables could be
+            import re
+            names = [n for n in dict.fromkeys(re.findall(r"(?<![A-Za-z0-9_'])[A-Z_][A-Za-z0-9_]*", a)) if n != '_']
+            heads = []
+            for n in names[:6] + ['Var_0', 'X_1', 'Point_2']:
+                m = re.match(r'^(.+)_(\d)$', n)
+                if m:
+                    k = int(m.group(2))
+                    heads.append("'%s'%s.\n" % (m.group(1), '(' + ', '.join('a' * 1 for _ in range(k)) + ')' if k else ''))
+            c = ''.join(heads) + c
         if cmode == 'internal-error':
             # fails INSIDE the clause compiler (name/arity term, numeral as functor name), using A's variable names
             import re
